@@ -432,6 +432,16 @@ func (ip *Interp) runClosure(fn *ssa.Function, args []any, binds []any, depth in
 					}
 				}
 				cells[x] = &iArr{elems: make([]any, n)}
+				// a fresh variable holds the zero value of its type
+				elemT := x.Type().Underlying().(*types.Pointer).Elem()
+				if at, isArr := elemT.Underlying().(*types.Array); isArr {
+					elemT = at.Elem()
+				}
+				if z := zeroOf(elemT, false); z != nil {
+					for i := range cells[x].elems {
+						cells[x].elems[i] = z
+					}
+				}
 				env[x] = iAddr{cells[x], -1} // whole-object address
 			case *ssa.IndexAddr:
 				base, ok := get(x.X)
